@@ -1,5 +1,6 @@
 import Holpy.C13.Wire
 import Holpy.C14.Model
+import Holpy.C14.ExistsModel
 import Holpy.C13.ExportModel
 import Holpy.C13.RevertModel
 /-
@@ -13,6 +14,7 @@ Line protocol, additions for the method-level model of C14 (everything else: Hol
   (searchfilter N GF GI GE FF FE)        -> (T|F T|F T|F T|F)   introduction exists_elim forall_elim inst_exists_goal suggested?
   (applicable RULE N GF GI GE FF FE)     -> (T|F T|F T|F)   introduction exists_elim inst_exists_goal: first tests of `apply` pass?
   (revert STATE ID FACT TH RA RI)        -> (ok STATE) | (error KIND)     revert_intro.apply (RA/RI: rule codes of assume/intros)
+  (existselim STATE ID FACT T|F (TH ...) TH BODY RA RV RI) -> (ok STATE) | (error KIND)   exists_elim.apply
   (roundtrip STATE)                      -> (ok STATE) | (error KIND)     importLines [] (exportLines STATE)
   (import ((ID RULE (ID ...) TH) ...))   -> (ok STATE) | (error KIND)
 -/
@@ -64,6 +66,11 @@ def handle (line : String) : String :=
     match newOf new with
     | some new => toString (Sexp.list ((advertised new).map thTo))
     | none => "bad-op"
+  | some (.list [.atom "existselim", st, i, f, fe, vs, ath, b, ra, rv, ri]) =>
+    match stateOf st, idOf i, idOf f, fe.toBool?, (vs.toList? >>= fun xs => xs.mapM thOf), thOf ath, b.toNat?, ra.toNat?, rv.toNat?, ri.toNat? with
+    | some s, some i, some f, some fe, some vs, some ath, some b, some ra, some rv, some ri =>
+      resTo (existsElimM s i f fe vs ath b ra rv ri)
+    | _, _, _, _, _, _, _, _, _, _ => "bad-op"
   | some (.list [.atom "roundtrip", st]) =>
     match stateOf st with
     | some s => resTo (importLines [] (exportLines s))
